@@ -18,7 +18,7 @@ ASSUMPTIONS = [
     'histories are interpreted from generated op lists with indices taken modulo the current slot counts (construction, not rejection)',
 ]
 
-OPS = ['create', 'create', 'managed_same', 'dup', 'pickle', 'unpickle', 'to_helper', 'transit_to_helper', 'helper_drop', 'helper_back', 'helper_pickle_back', 'store', 'store', 'unstore', 'delete', 'delete', 'managed_return', 'process_arg', 'helper_exit']
+OPS = ['create', 'create', 'managed_same', 'managed_mixed', 'pop_back', 'dup', 'pickle', 'unpickle', 'to_helper', 'transit_to_helper', 'helper_drop', 'helper_back', 'helper_pickle_back', 'store', 'store', 'unstore', 'delete', 'delete', 'managed_return', 'process_arg', 'helper_exit']
 KINDS = ['list', 'dict', 'Value', 'MemoryBlock', 'VCounter']
 
 
@@ -72,7 +72,7 @@ class Model:
 
 
 def cheap_call(proxy, kind):
-    if kind in ('list', 'dict'):
+    if kind in ('list', 'dict', 'slist'):
         return len(proxy)
     if kind == 'Value':
         return proxy.get()
@@ -275,12 +275,46 @@ def _run(spec):
         elif op == 'managed_same' and main:
             cs = [m for m in main if m[2] == 'VCounter']
             if cs:
+                # kind 'slist': the server-side list is retained by the hosted Counter itself, so what is stored in it is NOT dropped when
+                # its last proxy goes (no cascade); it is therefore never used as a container by 'store'
                 p = cs[a % len(cs)][0].shared_list()
                 if p._id in model.objs:
                     model.inc(p._id)
                 else:
-                    model.new(p._id, 'list')
+                    model.new(p._id, 'slist')
+                main.append([p, p._id, 'slist'])
+                nested += 1
+            else:
+                trace[-1].append('skipped')
+                continue
+        elif op == 'managed_mixed' and main:
+            cs = [m for m in main if m[2] == 'VCounter']
+            if cs:
+                # a hosted method returns plain data with two managed values nested in it
+                data = cs[a % len(cs)][0].make_mixed([1, b])
+                p = data['hosted']
+                q = data['deep'][1]['d']
+                if not (hasattr(p, '_callmethod') and hasattr(q, '_callmethod')) or data['plain'] != [1, b]:
+                    raise Violation('managed_not_a_proxy', f'make_mixed returned {data!r}', signature=['managed_not_a_proxy'])
+                model.new(p._id, 'list')
+                model.new(q._id, 'dict')
                 main.append([p, p._id, 'list'])
+                main.append([q, q._id, 'dict'])
+                data = None
+                nested += 1
+            else:
+                trace[-1].append('skipped')
+                continue
+        elif op == 'pop_back' and main:
+            # take a nested proxy back out of a hosted list: the reference moves from the container to this process
+            conts = [m for m in main if m[2] == 'list' and model.objs[m[1]]['contents']]
+            if conts:
+                c, cid, ckind = conts[a % len(conts)]
+                p = c.pop()
+                oid = model.objs[cid]['contents'].pop()
+                if not hasattr(p, '_id') or p._id != oid:
+                    raise Violation('wrong_nested_proxy', f'pop() of a hosted list returned {p!r}, expected the proxy of {oid}', signature=['wrong_nested_proxy'])
+                main.append([p, oid, model.objs[oid]['kind']])
                 nested += 1
             else:
                 trace[-1].append('skipped')
